@@ -303,6 +303,35 @@ def model_findings(run):
 # =========================================================================== V: corpus
 CTX = {"a": 3, "b": 0, "t": "<\u00e9&=>", "q": ""}
 CTX.update({"n%d" % i: i for i in range(12)})
+# Option vectors: Template / TemplateLookup options a template is realised under, on every path alike (ModuleTemplate
+# receives the options its constructor accepts and takes the others from the module -- which is what must agree), and
+# render-argument names that are special under SOME option settings (`loop` is only legal with enable_loop=False; names
+# equal to a def, a namespace, a block of the template).  Every option is non-default in at least one vector.
+NAME_ARGS = {"d1": "arg-d1", "ns": "arg-ns", "blk": "arg-blk", "shd": "arg-shd", "shd2": "arg-shd2", "nd2": "arg-nd2"}
+VECTORS = {
+    "default": {"opts": {}, "args": {}},
+    "noloop": {"opts": {"enable_loop": False}, "args": dict(NAME_ARGS, loop="arg-loop")},
+    "strict": {"opts": {"strict_undefined": True, "imports": ["import os", "from math import pi as M_PI"], "future_imports": ["annotations"]},
+               "args": dict(NAME_ARGS)},
+    "filters": {"opts": {"default_filters": ["str", "trim"], "buffer_filters": ["trim"], "output_encoding": "utf-8", "encoding_errors": "replace"},
+                "args": {}},
+    "misc": {"opts": {"error_handler": "swallow", "cache_enabled": False, "preprocessor": "strip-nul", "enable_loop": False,
+                      "include_error_handler": "swallow"}, "args": dict(NAME_ARGS, loop="arg-loop")},
+}
+MODULE_TEMPLATE_ACCEPTS = ("output_encoding", "encoding_errors", "format_exceptions", "error_handler", "cache_enabled", "include_error_handler")
+
+
+def build_opts(spec):
+    o = dict(spec)
+    if o.get("error_handler") == "swallow":
+        o["error_handler"] = lambda context, error: True
+    if o.get("include_error_handler") == "swallow":
+        o["include_error_handler"] = lambda context, error: True
+    if o.get("preprocessor") == "strip-nul":
+        o["preprocessor"] = lambda text: text.replace("\x00", "")
+    return o
+
+
 NONASCII = {"utf-8": "Gr\u00fc\u00dfe \u043c\u0438\u0440 \u65e5\u672c", "cp1251": "\u043c\u0438\u0440 \u0416\u0448", "latin-1": "Gr\u00fc\u00dfe \u00e9\u00e8"}
 
 # fragments: tag -> (text, [(def name, in-body call, get_def kwargs)]); {NA} = non-ASCII words of the encoding
@@ -359,6 +388,10 @@ FRAGS = {
     # ---- the URI as requested is part of the output: rendered per URI spelling (keys carry the spelling)
     "uri_print": ("URI[${self.uri}|${local.uri}|${context.get('parent').uri if context.get('parent') is not None else '-'}]"
                   "<%def name=\"ud(x)\">(${self.uri}|${local.uri}|${x})</%def>~~ud~~${ud(0)}~~/ud~~|\n", [("ud", {"x": 0})]),
+    # ---- <%page> overrides of options; names that are special under some option settings
+    "page_loop": ("<%page enable_loop=\"True\"/>\n% for i in range(2):\n${loop.index}:${loop.last}\\\n% endfor\n|\n", []),
+    "page_filter": ("<%page expression_filter=\"h\"/>${t}${t | n}|\n", []),
+    "shadow": ("<%def name=\"shd(x=1)\">S${x}</%def>${shd()}${shd2 if shd2 is not UNDEFINED else '-'}|\n", []),
     "multi_filters": ("${t | h, u, trim}${t | u, h}${' <x> ' | trim, h}${' <x> ' | h, trim}|\n", []),
     "texttag": ("<%text>${not} % evaluated <%def></%text>%% lit\n## comment\n<%doc>doc</%doc>|\n", []),
     "capture": ("<%def name=\"cp(x)\">c${x}</%def><% got = capture(cp, a) %>${got.upper()}${capture(cp, x='{NA}')}|\n", []),
@@ -378,7 +411,7 @@ SUPPORT = {
     "nsc.html": "".join("<%%def name=\"%s()\">C.%s </%%def>" % (n, n) for n in ("tri", "lab3")),
 }
 # the page fragment changes what `a` means for the body: kept out of combinations with def-reference segments
-EXCLUSIVE = {"page", "uri_print"}
+EXCLUSIVE = {"page", "uri_print", "page_loop", "page_filter"}
 
 
 def make_corpus(run, n_random):
@@ -386,7 +419,7 @@ def make_corpus(run, n_random):
     corpus = []
     REFS = {"include", "namespace", "ns_overlap_star", "ns_overlap_named", "ns_overlap_three", "env_def_ns"}
 
-    def add(tags, inherit, encoding):
+    def add(tags, inherit, encoding, vec="default"):
         for t in tags:                                   # a fragment may need a parent (a particular one)
             if t in REQ_INHERIT:
                 inherit = REQ_INHERIT[t] or inherit or "base.html"
@@ -398,11 +431,15 @@ def make_corpus(run, n_random):
         comment = "" if encoding == "utf-8" else "## -*- coding: %s -*-\n" % encoding
         defs = [d for t in tags for d in FRAGS[t][1]]
         corpus.append({"id": len(corpus) + 1, "tags": list(tags), "inherit": inherit or "", "encoding": encoding, "text": comment + body,
-                       "refs": bool(inherit or REFS & set(tags)), "urisens": "uri_print" in tags,
+                       "refs": bool(inherit or REFS & set(tags)), "urisens": "uri_print" in tags, "vec": vec,
                        "defs": defs, "marker": "TPL%03d" % (len(corpus) + 1)})
     encs = ["utf-8", "cp1251", "latin-1"]
-    for i, t in enumerate(sorted(FRAGS)):               # unit templates: one per feature
+    vecs = [v for v in VECTORS if v != "default"]
+    for i, t in enumerate(sorted(FRAGS)):               # unit templates: one per feature, under the default options ...
         add([t], "", encs[i % 3] if t not in ("text",) else "utf-8")
+    for i, t in enumerate(sorted(FRAGS)):               # ... and under one other option vector (all vectors occur)
+        add([t], "", encs[(i + 1) % 3], "noloop" if t == "page_loop" else vecs[(i + rng.randrange(len(vecs))) % len(vecs)] if i >= len(vecs) else vecs[i])
+    add(["page_loop"], "base.html", "utf-8", "misc")
     for t in ("env_def", "env_def_inh", "env_def_ns", "def", "falsy", "multi_defs", "text", "block"):   # ... in chains of length 2 and 3
         add([t], "base.html", "utf-8")
         add([t], "mid.html", encs[len(corpus) % 3])
@@ -413,7 +450,7 @@ def make_corpus(run, n_random):
     for _ in range(n_random):
         k = rng.randint(2, 6)
         sel = rng.sample(tags, k)
-        add(sel, rng.choice(["", "", "", "base.html", "mid.html"]), rng.choice(encs))
+        add(sel, rng.choice(["", "", "", "base.html", "mid.html"]), rng.choice(encs), rng.choice(["default"] + vecs))
     return corpus
 
 
@@ -427,7 +464,13 @@ def _seg(out, name):
 
 def _try(fn):
     try:
-        return fn()
+        r = fn()
+        if isinstance(r, bytes):        # an output_encoding is set: compared as text here (the exact bytes are C18's)
+            try:
+                r = r.decode("utf-8")
+            except UnicodeDecodeError:
+                pass
+        return r
     except SystemExit:
         return "exc:SystemExit"
     except Exception as ex:  # noqa -- an observation
@@ -452,10 +495,16 @@ def realise(tpl, d, seed, first):
     ev = []
     objs = []
     fn = os.path.join(d["src"], "main.html")
-    lk = TemplateLookup([d["src"]])
-    lkm = TemplateLookup([d["src"]], module_directory=d["md2"])
+    vec = VECTORS[tpl.get("vec", "default")]
+    topts = build_opts(vec["opts"])
+    mopts = {k: v for k, v in topts.items() if k in MODULE_TEMPLATE_ACCEPTS}
+    plain = tpl.get("vec", "default") == "default"       # mako-render cannot be given options: default vector only
+    RCTX = dict(CTX)
+    RCTX.update(vec["args"])
+    lk = TemplateLookup([d["src"]], **topts)
+    lkm = TemplateLookup([d["src"]], module_directory=d["md2"], **topts)
     text = tpl["text"]
-    strctx = {k: str(v) for k, v in CTX.items()}
+    strctx = {k: str(v) for k, v in RCTX.items()}
 
     def modfiles():
         return {k: v for k, v in _file_digests([d["md"], d["md2"], d["md3"], d["md4"]]).items() if k.endswith("main.html.py")}
@@ -486,14 +535,14 @@ def realise(tpl, d, seed, first):
 
         def rc():
             buf = FastEncodingBuffer()
-            t.render_context(Context(buf, **CTX), **CTX)     # what render(**CTX) does: the data also goes to the body's **pageargs
+            t.render_context(Context(buf, **RCTX), **RCTX)     # what render(**CTX) does: the data also goes to the body's **pageargs
             return buf.getvalue()
         def rc_file():                                       # a plain file-like object as the context's buffer
             buf = io.StringIO()
-            t.render_context(Context(buf, **CTX), **CTX)
+            t.render_context(Context(buf, **RCTX), **RCTX)
             return buf.getvalue()
         body = None
-        methods = (("render", lambda: t.render(**CTX)), ("render_unicode", lambda: t.render_unicode(**CTX)), ("render_context", rc),
+        methods = (("render", lambda: t.render(**RCTX)), ("render_unicode", lambda: t.render_unicode(**RCTX)), ("render_context", rc),
                    ("render_context", rc_file))
         for m, f in (methods[:1] if light else methods):
             r = _try(f)
@@ -506,13 +555,13 @@ def realise(tpl, d, seed, first):
                 ev.append({"ev": "render", "t": n, "m": "render", "key": K("def:" + name, sp), "dig": _d(seg) if seg is not None else "no-segment",
                            "seed": seed, "path": path})
             args = {k: (CTX[v[4:]] if isinstance(v, str) and v.startswith("CTX:") else v) for k, v in kw.items()}
-            data = dict(CTX)
+            data = dict(RCTX)
             data.update(args)
             r = _try(lambda: t.get_def(name).render(**data))
             ev.append({"ev": "render", "t": n, "m": "get_def", "key": K("def:" + name, sp), "dig": _d(r), "seed": seed, "path": path})
         if lookup is not None:
             # the template as a PARENT: a fixed child (kid.html) of it rendered through the same lookup
-            r = _try(lambda: lookup.get_template("kid.html").render(**CTX))
+            r = _try(lambda: lookup.get_template("kid.html").render(**RCTX))
             ev.append({"ev": "render", "t": n, "m": "render", "key": K("kid|typed", sp), "dig": _d(r), "seed": seed, "path": path})
         s = _try(lambda: t.source)
         ev.append({"ev": "source", "t": n, "dig": _d(s), "seed": seed, "path": path})
@@ -543,7 +592,7 @@ def realise(tpl, d, seed, first):
     # 1. compiled from a string (with a URI, as TemplateLookup.put_string does -- under every spelling when the URI is
     #    part of the output, which gives the reference for that spelling -- and without)
     for sp in (("p", "s", "d") if urisens else ("p",)):
-        t = construct("string", "uri" + NM[sp], lambda: Template(text, uri=SP[sp], lookup=lk))
+        t = construct("string", "uri" + NM[sp], lambda: Template(text, uri=SP[sp], lookup=lk, **topts))
         if t is not None:
             queries(t, "string/uri", sp=sp, light=sp != "p")
             if sp == "p":
@@ -551,7 +600,7 @@ def realise(tpl, d, seed, first):
                 if isinstance(r, str) and r.startswith("exc:"):
                     r = "exc:render-failed"      # mako-render reports any failure the same way
                 ev.append({"ev": "render", "t": len(objs), "m": "render", "key": K("body|str", "p"), "dig": _d(r), "seed": seed, "path": "string/uri"})
-    t = None if urisens else construct("string", "anon", lambda: Template(text, lookup=lk))
+    t = None if urisens else construct("string", "anon", lambda: Template(text, lookup=lk, **topts))
     if t is not None:
         queries(t, "string/anon")
     # 2. from a file, in memory: through a lookup under three spellings of the URI; by file name only
@@ -560,7 +609,7 @@ def realise(tpl, d, seed, first):
         if t is not None:
             queries(t, "file/lookup", lk if sp == "p" else None, sp=sp, light=sp != "p")
     # (a file name as the only identity cannot resolve relative <%include>/<%inherit>/<%namespace>: not generated)
-    t = None if bare else construct("file", "fn", lambda: Template(filename=fn, lookup=lk))
+    t = None if bare else construct("file", "fn", lambda: Template(filename=fn, lookup=lk, **topts))
     if t is not None:
         queries(t, "file/fn")
     # 3./4. module files: generated by the first process under one spelling, re-loaded under the others and by every
@@ -572,17 +621,17 @@ def realise(tpl, d, seed, first):
         if t is not None:
             queries(t, "moddir/lookup", lkm if sp == "p" else None, sp=sp, light=sp != "p")
             tm = tm or t
-    lkr = TemplateLookup([d["src"]], module_directory=d["md3"])
+    lkr = TemplateLookup([d["src"]], module_directory=d["md3"], **topts)
     for sp in ("d", "s", "p"):
         t = construct("moddir", "ruri" + NM[sp], lambda: lkr.get_template(SP[sp]))
         if t is not None:
             queries(t, "moddir/lookup-reversed", sp=sp, light=True)
-    lkc = TemplateLookup([d["src"]], modulename_callable=lambda filename, uri: os.path.join(d["md4"], os.path.basename(filename) + ".py"))
+    lkc = TemplateLookup([d["src"]], modulename_callable=lambda filename, uri: os.path.join(d["md4"], os.path.basename(filename) + ".py"), **topts)
     for sp in ("s", "p"):
         t = construct("moddir", "curi" + NM[sp], lambda: lkc.get_template(SP[sp]))
         if t is not None:
             queries(t, "moddir/modulename_callable", sp=sp, light=True)
-    t = None if bare else construct("moddir", "fn", lambda: Template(filename=fn, module_directory=d["md"], lookup=lkm))
+    t = None if bare else construct("moddir", "fn", lambda: Template(filename=fn, module_directory=d["md"], lookup=lkm, **topts))
     if t is not None:
         queries(t, "moddir/fn")
     if (t if not bare else tm) is not None:
@@ -593,7 +642,8 @@ def realise(tpl, d, seed, first):
             spec = importlib.util.spec_from_file_location("wrapped_%s" % tpl["marker"], path)
             mod = importlib.util.module_from_spec(spec)
             spec.loader.exec_module(mod)
-            return ModuleTemplate(mod, module_filename=path, template_filename=fn, lookup=lkm)
+            # the documented way: from the module, with the options ModuleTemplate accepts; the rest comes from the module
+            return ModuleTemplate(mod, module_filename=path, template_filename=fn, lookup=lkm, **mopts)
         t = construct("wrap", "uri" if bare else "fn", wrap, how="modfile")
         if t is not None:
             queries(t, "wrap", sp="p")
@@ -624,13 +674,14 @@ def realise(tpl, d, seed, first):
         ev.append({"ev": "render", "t": n, "m": "cmdline", "key": K("body|str", "p"), "dig": _d(r), "seed": seed, "path": label})
         ev.append({"ev": "collect", "t": n})
     name = "main.html" if bare else fn
-    cmd_event([name] + varargs, "cmdline", "file", "uri" if bare else "fn")
-    cmd_event([name, "--template-dir", "." if bare else d["src"]] + varargs, "cmdline-template-dir", "file", "uri" if bare else "fn")
-    if not urisens:
+    if plain:
+        cmd_event([name] + varargs, "cmdline", "file", "uri" if bare else "fn")
+        cmd_event([name, "--template-dir", "." if bare else d["src"]] + varargs, "cmdline-template-dir", "file", "uri" if bare else "fn")
+    if plain and not urisens:
         os.chdir(d["src"])
         cmd_event(["-"] + varargs, "cmdline-stdin", "string", "anon", stdin=text)
     aux = []
-    if first:
+    if first and plain:
         t = _try(lambda: Template(text, uri="main.html", lookup=lk))
         if not isinstance(t, str):
             r0 = _try(lambda: t.render(**strctx))
@@ -781,10 +832,14 @@ def classify(tpl, trace, v, unit_fail):
             dim += ":" + e.get("exc", "")
     # the features to blame: those whose one-feature template fails in the same way (unit templates are classified first)
     key = clause + ":" + dim
-    if len(tpl["tags"]) == 1:
+    vec = tpl.get("vec", "default")
+    if len(tpl["tags"]) == 1 and vec == "default":
         unit_fail.setdefault(tpl["tags"][0], set()).add(key)
-    feats = [t for t in tpl["tags"] if key in unit_fail.get(t, ())] or [t for t in tpl["tags"] if t in unit_fail] or tpl["tags"]
-    return "trace:%s:%s" % (key, "+".join(sorted(feats)) if len(feats) <= 2 else "combo")
+    explained = [t for t in tpl["tags"] if key in unit_fail.get(t, ())]
+    feats = explained or [t for t in tpl["tags"] if t in unit_fail] or tpl["tags"]
+    sig = "trace:%s:%s" % (key, "+".join(sorted(feats)) if len(feats) <= 2 else "combo")
+    # a failure that a one-feature template shows under the default options is that finding; otherwise the options matter
+    return sig if explained or vec == "default" else sig + ":vec=" + vec
 
 
 def validate(run, corpus, traces, name):
@@ -857,7 +912,7 @@ def check(run):
         raise MachineryError("no simulated behaviour contained a source query")
 
     # ------------------------------------------------------------------ 3. V: corpus on the eight paths x hash seeds
-    corpus = make_corpus(run, 60 if not thorough else 500)
+    corpus = make_corpus(run, 36 if not thorough else 500)
     seeds = choose_seeds(run)
     traces = record_corpus(run, corpus, nproc, seeds)
     by_id = {t["id"]: t for t in corpus}
@@ -891,7 +946,7 @@ def check(run):
     while pending:
         rounds += 1
         again = []
-        pending.sort(key=lambda p: (len(by_id[p[0]["id"] % AUX]["tags"]), by_id[p[0]["id"] % AUX]["inherit"], p[0]["id"]))
+        pending.sort(key=lambda p: (by_id[p[0]["id"] % AUX].get("vec", "default") != "default", len(by_id[p[0]["id"] % AUX]["tags"]), by_id[p[0]["id"] % AUX]["inherit"], p[0]["id"]))
         for tr, v in pending:
             tpl = by_id[tr["id"] % AUX]
             i = v["i"]
@@ -899,9 +954,9 @@ def check(run):
             sig = classify(tpl, tr, v, unit_fail)
             sigs[sig] = sigs.get(sig, 0) + 1
             related = [x for x in tr["events"] if e and x.get("ev") == e.get("ev") and x.get("key") == e.get("key")][:40]
-            run.violation(sig, "template %s (features %s%s): event %d not accepted by Trace_Paths.tla (%s): %s"
-                          % (tpl["marker"], tpl["tags"], ", inherits" if tpl["inherit"] else "", i, v["clause"], e),
-                          {"template": tpl["text"], "encoding": tpl["encoding"], "context": CTX, "support": SUPPORT, "event": e, "verdict": v,
+            run.violation(sig, "template %s (features %s%s, options %s): event %d not accepted by Trace_Paths.tla (%s): %s"
+                          % (tpl["marker"], tpl["tags"], ", inherits" if tpl["inherit"] else "", tpl.get("vec"), i, v["clause"], e),
+                          {"template": tpl["text"], "encoding": tpl["encoding"], "context": CTX, "options": VECTORS[tpl.get("vec", "default")], "support": SUPPORT, "event": e, "verdict": v,
                            "same_key_events": related})
             # go on past the deviation: drop the events of that kind and validate the rest of the trace again
             if e and e.get("ev") in ("render", "source", "code", "defs") and rounds < 4:
